@@ -627,6 +627,7 @@ pub fn check_main(prop: &dyn Property, tier: Tier, seed: u64) -> i32 {
     let dir = scratch_dir();
     let exe = std::env::current_exe().unwrap();
     let mut children = Vec::new();
+    let mut child_pids: Vec<u32> = Vec::new();
     for w in 0..n {
         let out = dir.join(format!("w{}.json", w));
         let child = std::process::Command::new(&exe)
@@ -640,6 +641,7 @@ pub fn check_main(prop: &dyn Property, tier: Tier, seed: u64) -> i32 {
             .stdout(std::process::Stdio::null())
             .spawn()
             .expect("spawn worker");
+        child_pids.push(child.id());
         children.push((w, child, out));
     }
     let deadline = t0 + std::time::Duration::from_secs(tier.pick(45 * 60, 6 * 3600));
@@ -744,6 +746,15 @@ pub fn check_main(prop: &dyn Property, tier: Tier, seed: u64) -> i32 {
         }
     }
     let _ = std::fs::remove_dir_all(&dir);
+    // scratch directories of workers that died before cleaning up
+    if let Ok(rd) = std::fs::read_dir(dir.parent().unwrap_or(Path::new("/tmp"))) {
+        for e in rd.filter_map(|e| e.ok()) {
+            let name = e.file_name().to_string_lossy().to_string();
+            if child_pids.iter().any(|p| name.starts_with(&format!("casverif.{}.", p))) {
+                let _ = std::fs::remove_dir_all(e.path());
+            }
+        }
+    }
 
     // 3. evidence
     let mut coverage = json!({
